@@ -25,6 +25,7 @@ def run(ctx) -> None:
     ctx.guard("C10.enum", enum_table)
     ctx.guard("C10.int-map", int_map)
     ctx.guard("C10.aggregate", aggregate_records)
+    ctx.guard("C10.mask-range", mask_range)
     ctx.guard("C10.aggregate", aggregate_evo)
     ctx.guard("C10.aggregate", evo_member_conversion)
     ctx.guard("C10.any", any_rules)
@@ -33,6 +34,11 @@ def run(ctx) -> None:
 
     for dev in concrete_devices(ctx):
         ctx.reuse("C10.same-mask", c07.step_block, dev)
+        # aspirate()/dispense() hand the tip selection to every record unchanged (one mask for all wells of the call)
+        from . import c01
+
+        for meth, track, kind in (("aspirate", "remove", "A"), ("dispense", "add", "D")):
+            ctx.reuse("C10.same-mask", c01.pair_ad, dev, meth, track, kind)
     # "the i-th volume slot belongs to tip i": the converted tips are strictly ascending and paired one-to-one with the slots
     from . import c13
 
@@ -228,6 +234,151 @@ def _tip_host(ctx, rule: str):
             if tname in {s_.id for s_ in ast.walk(it) if isinstance(s_, ast.Name)}:
                 return f, fv, tname, lp, it
     return f0, fv0, "tip", None, None
+
+
+def _const_eval(ctx, module, e: ast.AST, depth: int = 0):
+    """Integer value of a constant expression over the Tip enum (Tip.T3, sum(Tip), max(Tip), 2 ** 8 - 1, a module-level
+    name bound to one of these - also when imported from another module of the package) or None."""
+    if depth > 6:
+        return None
+    if isinstance(e, ast.Constant) and isinstance(e.value, int) and not isinstance(e.value, bool):
+        return e.value
+    table = _tip_table(ctx, "C10.mask-range")
+    if isinstance(e, ast.Attribute) and is_name(e.value, "Tip"):
+        return table.get(e.attr)
+    if isinstance(e, ast.Attribute) and e.attr == "value":
+        return _const_eval(ctx, module, e.value, depth + 1)
+    if isinstance(e, ast.Name):
+        r = ctx.prog.resolve_name(module, e.id)
+        if isinstance(r, tuple) and r[0] == "value":
+            v = r[1].assigns.get(r[2])
+            return _const_eval(ctx, r[1], v, depth + 1) if v is not None else None
+        return None
+    if isinstance(e, ast.UnaryOp) and isinstance(e.op, ast.USub):
+        v = _const_eval(ctx, module, e.operand, depth + 1)
+        return -v if v is not None else None
+    if isinstance(e, ast.BinOp):
+        a, b = _const_eval(ctx, module, e.left, depth + 1), _const_eval(ctx, module, e.right, depth + 1)
+        if a is None or b is None:
+            return None
+        ops = {ast.Add: lambda x, y: x + y, ast.Sub: lambda x, y: x - y, ast.BitOr: lambda x, y: x | y, ast.Mult: lambda x, y: x * y,
+               ast.Pow: lambda x, y: x ** y if 0 <= y < 64 else None, ast.LShift: lambda x, y: x << y if 0 <= y < 64 else None}
+        fn = ops.get(type(e.op))
+        return fn(a, b) if fn else None
+    if isinstance(e, ast.Call) and call_fname(e) in ("sum", "max", "min", "int", "len") and len(e.args) == 1:
+        arg = e.args[0]
+        if call_fname(e) == "int":
+            return _const_eval(ctx, module, arg, depth + 1)
+        vals = None
+        if is_name(arg, "Tip"):
+            vals = list(table.values())
+        elif isinstance(arg, (ast.GeneratorExp, ast.ListComp)) and len(arg.generators) == 1 and is_name(arg.generators[0].iter, "Tip") and isinstance(arg.generators[0].target, ast.Name):
+            g = arg.generators[0]
+            var = g.target.id
+            vals = []
+            for name, val in table.items():
+                def sub(x):
+                    return _subst_member(x, var, name)
+                keep = True
+                for cond in g.ifs:
+                    cv = _cond_eval(ctx, module, sub(cond), depth + 1)
+                    if cv is None:
+                        return None
+                    keep = keep and cv
+                if keep:
+                    ev = _const_eval(ctx, module, sub(arg.elt), depth + 1)
+                    if ev is None:
+                        return None
+                    vals.append(ev)
+        elif isinstance(arg, (ast.Tuple, ast.List)):
+            vals = [_const_eval(ctx, module, x, depth + 1) for x in arg.elts]
+        if vals is None or any(v is None for v in vals):
+            return None
+        return {"sum": sum, "max": max, "min": min, "len": len}[call_fname(e)](vals) if vals or call_fname(e) in ("sum", "len") else None
+    return None
+
+
+def _subst_member(x: ast.AST, var: str, member: str) -> ast.AST:
+    class T(ast.NodeTransformer):
+        def visit_Name(self, n):
+            if n.id == var:
+                return ast.Attribute(value=ast.Name(id="Tip", ctx=ast.Load()), attr=member, ctx=ast.Load())
+            return n
+
+    import copy
+
+    return T().visit(copy.deepcopy(x))
+
+
+def _cond_eval(ctx, module, e: ast.AST, depth: int):
+    if isinstance(e, ast.UnaryOp) and isinstance(e.op, ast.Not):
+        v = _cond_eval(ctx, module, e.operand, depth + 1)
+        return None if v is None else not v
+    if isinstance(e, ast.Compare) and len(e.ops) == 1:
+        a, b = _const_eval(ctx, module, e.left, depth + 1), _const_eval(ctx, module, e.comparators[0], depth + 1)
+        if a is None or b is None:
+            return None
+        op = e.ops[0]
+        table = {ast.Eq: a == b, ast.NotEq: a != b, ast.Lt: a < b, ast.LtE: a <= b, ast.Gt: a > b, ast.GtE: a >= b, ast.Is: a == b, ast.IsNot: a != b}
+        return table.get(type(op))
+    return None
+
+
+def mask_range(ctx) -> None:
+    """Every combination of tips 1-8 is a valid selection: whatever range check is applied to the folded mask accepts all of
+    1..255 (the OR of any non-empty subset of the eight tips)."""
+    from ..guards import dnf
+
+    rule = "C10.mask-range"
+    f, fv, TIP, lp, it = _tip_host(ctx, rule)
+    if lp is None:
+        ctx.rep.inconclusive(rule, f.qualname, "loop over the tip collection not found")
+        return
+    n = 0
+    for gn, test, pol_raise, r in fv.raising_guards():
+        if lp.id not in fv.cfg.completed_loops_at(gn.id):
+            continue
+        if not any(isinstance(x, ast.Name) and x.id == TIP for x in ast.walk(test)):
+            continue
+        c = f"{f.qualname}/guard[{show(test)[:40]}]"
+        w = f.where(gn.ast)
+        # the guard raises when some term of the DNF holds; evaluate each term over all masks 1..255
+        rejected = None
+        unknown = False
+        for term in dnf(test, pol_raise):
+            for mask in range(1, 256):
+                vals = []
+                for a in term:
+                    e = _subst_value(a.expr, TIP, mask)
+                    v = _cond_eval(ctx, f.module, e, 0)
+                    vals.append(None if v is None else (v == a.pol))
+                if any(v is False for v in vals):
+                    continue
+                if any(v is None for v in vals):
+                    unknown = True
+                    continue
+                rejected = mask if rejected is None else rejected
+        n += 1
+        if rejected is not None:
+            ctx.rep.refuted(rule, c, f"the check `{show(test)[:70]}` rejects the tip mask {rejected} (tips {[i + 1 for i in range(8) if rejected >> i & 1]}): "
+                            "every non-empty combination of tips 1-8 is a valid selection", where=w)
+        elif unknown:
+            ctx.rep.inconclusive(rule, c, f"cannot evaluate `{show(test)[:70]}` over the masks 1..255", where=w)
+        else:
+            ctx.rep.holds(rule, c, "accepts every mask 1..255", where=w)
+    ctx.rep.holds(rule, f"{f.qualname}/range-guards", f"{n} range check(s) on the folded mask", where=f.where())
+
+
+def _subst_value(x: ast.AST, var: str, value: int) -> ast.AST:
+    class T(ast.NodeTransformer):
+        def visit_Name(self, n):
+            if n.id == var:
+                return ast.Constant(value=value)
+            return n
+
+    import copy
+
+    return T().visit(copy.deepcopy(x))
 
 
 def aggregate_records(ctx) -> None:
